@@ -68,17 +68,18 @@ Section Main.
 
   (** the tree part of Parse on the strings read back *)
   Lemma build_trees_ok : forall (labels : list string) (st : nexus_st) (its : list (string * string * utree)),
-      ns_table st = None -> ns_taxlabels st = Some labels ->
+      ns_taxlabels st = Some labels ->
       Forall (fun x => let '(_, s, t) := x in
                        nparse (s ++ ";") = inl t /\
                        forallb (fun n => mem n labels) (tip_names t) = true /\
                        length (tips t) = length labels) its ->
-      build_trees nparse st (map (fun x => fst (fst x)) its) (map (fun x => snd (fst x)) its) =
+      build_trees nparse st (map (fun x => fst (fst x)) its) (map (fun x => snd (fst x)) its)
+                  (map (fun _ => None) (map (fun x => fst (fst x)) its)) =
       inl (map (fun x => (fst (fst x), snd x)) its).
   Proof.
-    intros labels st its HT HL. induction its as [|[[n s] t] r IH]; intros H; [reflexivity|].
+    intros labels st its HL. induction its as [|[[n s] t] r IH]; intros H; [reflexivity|].
     inversion H as [|? ? H0 Hr]; subst. cbn in H0. destruct H0 as [H1 [H2 H3]].
-    cbn [map fst snd build_trees]. rewrite H1. rewrite HT, HL. rewrite H2. cbn [negb].
+    cbn [map fst snd build_trees]. rewrite H1. rewrite HL. rewrite H2. cbn [negb].
     rewrite H3. rewrite Nat.eqb_refl. cbn [negb]. rewrite (IH Hr). reflexivity.
   Qed.
 
@@ -107,7 +108,7 @@ Section Main.
         destruct He as [it [He Hi]]. subst e. rewrite Forall_forall in HN.
         exact (proj1 (newick_ok_entry (fst it) _ (HN it Hi))). }
     unfold finish, doc_state.
-    cbn [ns_taxantax ns_taxlabels ns_trees ns_table ns_data ns_missing ns_gap].
+    cbn [ns_taxantax ns_taxlabels ns_trees ns_table ns_data ns_missing ns_gap ns_tabs].
     rewrite <- labels_length. unfold zlength.
     replace (Z.of_nat (length (labels_of l)) =? -1)%Z with false by (symmetry; apply Z.eqb_neq; lia).
     rewrite Z.eqb_refl. cbn [negb andb orb Ascii.eqb Bool.eqb].
@@ -118,7 +119,7 @@ Section Main.
     assert (E2 : map entry_body (entries_of wnewick l) = map (fun x => snd (fst x)) its).
     { unfold its, entries_of. rewrite !map_map. reflexivity. }
     rewrite E1, E2.
-    rewrite (build_trees_ok (labels_of l)); [| reflexivity | reflexivity |].
+    rewrite (build_trees_ok (labels_of l)); [| reflexivity |].
     - f_equal. f_equal. unfold its. rewrite map_map. reflexivity.
     - unfold its. apply Forall_forall. intros x Hx. apply in_map_iff in Hx. destruct Hx as [it [Hx Hi]]. subst x.
       rewrite Forall_forall in HT. destruct (HT it Hi) as [A [B [C D]]].
